@@ -234,4 +234,20 @@ def uniqRands (quantity maxval : Nat) (r : Nat → Nat) : Option (List Nat) :=
   (uniqLoop r (min quantity maxval) 0 maxval (Array.range maxval)).map
     fun a => (a.extract 0 (min quantity maxval)).toList
 
+/-! ### one tick of queueScanLoop -/
+
+/-- the channels at the selected indices of the (cached) channel list are handed to
+`queueScanWorker`, which scans both queues with the clock reading `now i` it takes -/
+def scanTick (cs : List Chan) (sel : List Nat) (now : Nat → Int) : List Chan :=
+  cs.mapIdx fun i c => if sel.contains i then (scanChannel c (now i)).chan else c
+
+/-- `num := min(QueueScanSelectionCount, len(channels)); for _, i := range UniqRands(num, len(channels))` -/
+def queueScanTick (selectionCount : Nat) (cs : List Chan) (r : Nat → Nat) (now : Nat → Int) :
+    Option (List Chan) :=
+  (uniqRands (min selectionCount cs.length) cs.length r).map fun sel => scanTick cs sel now
+
+/-- nothing in either queue of the channel is due at `t` -/
+def nothingDue (c : Chan) (t : Int) : Bool :=
+  c.ifpq.all (fun e => decide (t < e.pri)) && c.dpq.all (fun e => decide (t < e.pri))
+
 end Nsq.Model.Timing
